@@ -28,10 +28,18 @@ pub mod syn {
     #[verifier::external_body] pub struct Expr { _p: u8 }
     #[verifier::external_body] #[derive(PartialEq, Eq, Hash)] pub struct Path { _p: u8 }
     #[verifier::external_body] pub struct WherePredicate { _p: u8 }
-    #[verifier::external_body] pub struct ItemEnum { _p: u8 }
+    pub struct ItemEnum { pub attrs: Vec<Attribute>, pub variants: Punctuated<Variant> }
+    #[verifier::external_body] pub struct ItemStruct { _p: u8 }
     #[verifier::external_body] pub struct Attribute { _p: u8 }
-    #[verifier::external_body] pub struct FieldsNamed { _p: u8 }
-    #[verifier::external_body] pub struct FieldsUnnamed { _p: u8 }
+    // Punctuated<T, P>: only its length is visible
+    #[verifier::external_body] #[verifier::reject_recursive_types(T)] pub struct Punctuated<T> { _p: core::marker::PhantomData<T> }
+    impl<T> Punctuated<T> {
+        pub uninterp spec fn spec_len(&self) -> nat;
+        #[verifier::external_body] pub fn len(&self) -> (r: usize) ensures r == self.spec_len() { unimplemented!() }
+        #[verifier::external_body] pub fn is_empty(&self) -> (r: bool) ensures r == (self.spec_len() == 0) { unimplemented!() }
+    }
+    pub struct FieldsNamed { pub named: Punctuated<Field> }
+    pub struct FieldsUnnamed { pub unnamed: Punctuated<Field> }
     pub use super::proc_macro2::Ident;
     pub enum Fields { Named(FieldsNamed), Unnamed(FieldsUnnamed), Unit }
     pub struct Field { pub ident: Option<Ident> }
